@@ -92,6 +92,13 @@ def history(rng):
             c = rng.choice(p0[3])
             add(("un", ("sort", [(("ref", c), rng.random() < 0.5)]), mp.DEFAULT, rng.choice([x, p0])))
         add(("un", ("slice", 0, 2), mp.DEFAULT, rng.choice([x, p0])))
+        if p0[3]:
+            # lazy pass-through iterables hand the leaf's own row objects downstream: a calculation on top of a
+            # selection / a chain / a window must not write into them
+            c0 = rng.choice(p0[3])
+            through = rng.choice([("un", ("sel", ("cmp", "ge", ("ref", c0), ("lit", 0))), mp.DEFAULT, p0),
+                                  ("chain", p0, p0), ("un", ("slice", 0, 3), mp.DEFAULT, p0), x])
+            add(("un", ("calc", gen.fresh_tag(rng, set(p0[3])), ("add", ("ref", c0), ("lit", 1))), mp.DEFAULT, through))
     if not pool:
         return None
     snap = [fingerprint(r) for r in pool]
